@@ -6,7 +6,15 @@ Dimensions: all of 0..17 for every (method, allowNull), random up to 33 biased t
 Probability vectors: Dirichlet-like, with entries down to 1e-9, dyadic, one dominant entry.
 Parameter vectors: uniform in (0,1), coordinates within 1e-9 .. 1e-12 of 0 or 1, dyadic k/16.
 A malformed stream (sum off by more than SMALL, sum next to the SMALL threshold, negative or zero
-entries, parameters outside the constraint, unknown parameter index) exercises the rejections.
+entries, parameters outside the constraint, unknown parameter index) exercises the rejections, each
+followed by a look at the object and, often, by a partial notification (the ratio cache of the
+local-ratio coding is written by setFrequencies before the vector is validated).
+Copies: copy construction, clone(), operator= (also onto itself, in chains), between objects of every
+pair of codings, of different dimensions and constraint options, plain and ordered, ordered -> plain
+(slicing copy construction / assignment) and plain -> base part of an ordered object of the same
+dimension; each followed by notifications (setParameterValue, matchParametersValues on all or some
+thetas, setParametersValues on some, fireParameterChanged, setFrequencies) on BOTH objects and looks
+at the other one.
 """
 import random, struct, math
 
@@ -117,6 +125,94 @@ def pick_dim(rng):
     return rng.choice(BIG)
 
 
+def some_pairs(rng, npar):
+    """(index, value) pairs with distinct indices, now and then a name the object does not have"""
+    k = rng.randint(1, min(npar, 3))
+    idx = rng.sample(range(1, npar + 1), k)
+    if rng.random() < 0.15:
+        idx.append(npar + rng.randint(1, 3))
+    out = []
+    for i in idx:
+        th, _ = rand_theta(rng, 1)
+        out.append("%d %s" % (i, hx(th[0])))
+    return " ".join(out)
+
+
+def notify(rng, pre, reg, n, m):
+    """one call on register `reg` (dimension n, method m) that notifies the object"""
+    npar = n - 1 if 1 <= m <= 3 and n >= 1 else 0
+    r = rng.random()
+    if npar == 0 or r < 0.12:
+        return "%sfire %d" % (pre, reg)
+    if r < 0.37:
+        th, _ = rand_theta(rng, 1)
+        return "%ssetone %d %d %s" % (pre, reg, rng.randint(1, npar), hx(th[0]))
+    if r < 0.57:
+        th, _ = rand_theta(rng, npar)
+        return "%ssetpar %d %s" % (pre, reg, hv(th))
+    if r < 0.72:
+        return "%ssetsome %d %s" % (pre, reg, some_pairs(rng, npar))
+    if r < 0.85:
+        return "%smatchsome %d %s" % (pre, reg, some_pairs(rng, npar))
+    p, _ = rand_probs(rng, n)
+    return "%ssetfreq %d %s" % (pre, reg, hv(ordered_from_probs(p) if pre == "o" else p))
+
+
+def construct_op(rng, pre, reg, n, m, a):
+    if rng.random() < 0.7:
+        p, _ = rand_probs(rng, n)
+        return "%snew %d %d %d %s" % (pre, reg, m, a, hv(ordered_from_probs(p) if pre == "o" else p))
+    return "%snewdim %d %d %d %d" % (pre, reg, n, m, a)
+
+
+def copy_case(rng, kind, ms, mt, as_, at, ns, nt):
+    """source in register 0, target in register 1; kind of copy; notifications on both afterwards"""
+    ops = []
+    if kind in ("assign", "copy", "copyctor", "self", "chain"):
+        sp, tp, cp = "", "", ""
+    elif kind in ("oassign", "ocopy", "oclone"):
+        sp, tp, cp = "o", "o", "o"
+    elif kind in ("sliceassign", "slicecopy"):
+        sp, tp, cp = "o", "", ""
+    else:  # baseassign: plain source, ordered target of the same dimension
+        sp, tp, cp = "", "o", "o"
+        nt = ns
+    ops.append(construct_op(rng, sp, 0, ns, ms, as_))
+    if rng.random() < 0.5:
+        ops.append(notify(rng, sp, 0, ns, ms))
+    if kind in ("assign", "oassign", "sliceassign", "baseassign", "chain") and rng.random() < 0.85:
+        ops.append(construct_op(rng, tp, 1, nt, mt, at))
+        if rng.random() < 0.4:
+            ops.append(notify(rng, tp, 1, nt, mt))
+    if kind == "self":
+        ops.append("assign 0 0")
+        ops.append(notify(rng, "", 0, ns, ms))
+        ops.append("get 0")
+        return ops
+    if kind == "baseassign" and not any(l.startswith("onew") for l in ops[1:]):
+        ops.append(construct_op(rng, "o", 1, ns, mt, at))
+    opname = {"assign": "assign", "chain": "assign", "copy": "copy", "copyctor": "copyctor", "oassign": "oassign",
+              "ocopy": "ocopy", "oclone": "oclone", "sliceassign": "sliceassign", "slicecopy": "slicecopy",
+              "baseassign": "baseassign"}[kind]
+    ops.append("%s 0 1" % opname)
+    # the copy now has the source's dimension and coding
+    for _ in range(rng.randint(1, 3)):
+        ops.append(notify(rng, cp, 1, ns, ms))
+        ops.append("%sget 0" % sp)
+        ops.append(notify(rng, sp, 0, ns, ms))
+        ops.append("%sget 1" % cp)
+    if kind == "chain":
+        ops.append(construct_op(rng, "", 2, rng.randint(1, 6), rng.randint(1, 3), rng.randint(0, 1)))
+        ops.append("assign 1 2")
+        ops.append("assign 2 0")
+        ops.append(notify(rng, "", 2, ns, ms))
+        ops.append("get 0")
+        ops.append("get 1")
+        ops.append(notify(rng, "", 0, ns, ms))
+        ops.append("get 2")
+    return ops
+
+
 def history(rng, pre, n, m, a, L):
     """random ops on register 0 of kind pre ('' Simplex / 'o' OrderedSimplex)"""
     ops = []
@@ -156,11 +252,18 @@ def history(rng, pre, n, m, a, L):
                 ops.append("%sget %d" % (pre, j))
             else:
                 ops.append("%sget 0" % pre)
-        elif r < 0.93 and pre == "" and n >= 1:
+        elif r < 0.93 and n >= 1:
             j = rng.randint(1, 3)
-            ops.append("newdim %d %d %d %d" % (j, rng.randint(1, 5), rng.randint(1, 3), a))
-            ops.append("assign 0 %d" % j)
-            ops.append("get 0")
+            ops.append("%snewdim %d %d %d %d" % (pre, j, rng.randint(1, 5), rng.randint(1, 3), rng.randint(0, 1)))
+            ops.append("%sassign 0 %d" % (pre, j))
+            ops.append("%sget 0" % pre)
+            # the target now has the source's coding and dimension: notify it, then the source
+            ops.append(notify(rng, pre, j, n, m))
+            ops.append("%sget 0" % pre)
+            ops.append(notify(rng, pre, 0, n, m))
+            ops.append("%sget %d" % (pre, j))
+        elif r < 0.97:
+            ops.append(notify(rng, pre, 0, n, m))
         else:
             ops.append("%sget 0" % pre)
     return ops
@@ -254,6 +357,12 @@ def generate(seed, tier):
         for _ in range(rng.randint(1, 4)):
             ops.append(malformed(rng, n, m, a))
             ops.append("get 0")
+            if rng.random() < 0.5:
+                # a partial notification right after the rejection, then a copy of the object
+                ops.append(notify(rng, "", 0, n, m))
+                if rng.random() < 0.3:
+                    ops.append("copy 0 1")
+                    ops.append(notify(rng, "", 1, n, m))
         if rng.random() < 0.3:
             ops += history(rng, "", n, m, a, 2)
         cases.append(["case bad%d m%d a%d n%d" % (i, m, a, n)] + ops)
@@ -279,6 +388,19 @@ def generate(seed, tier):
             ops.append("oget 0")
         ops += history(rng, "o", n, m, a, 2)
         cases.append(["case obad%d m%d a%d n%d" % (i, m, a, n)] + ops)
+    # 3c. copies between objects of different coding / dimension / constraint option / class
+    kinds = ["assign", "assign", "oassign", "sliceassign", "slicecopy", "baseassign", "copy", "copyctor", "ocopy",
+             "oclone", "self", "chain"]
+    reps = 12 if thorough else 3
+    for kind in kinds:
+        for ms in (1, 2, 3):
+            for mt in (1, 2, 3):
+                for rep in range(reps):
+                    as_, at = rng.randint(0, 1), rng.randint(0, 1)
+                    ns = rng.choice([1, 2, 2, 3, 3, 4, 5, 7, 8, 9])
+                    nt = ns if rng.random() < 0.3 else rng.choice([1, 2, 3, 4, 5, 6, 9])
+                    cases.append(["case cp-%s m%d t%d a%d%d n%d k%d r%d" % (kind, ms, mt, as_, at, ns, nt, rep)]
+                                 + copy_case(rng, kind, ms, mt, as_, at, ns, nt))
     # 4. method 0 (no parametrisation) and unknown method numbers: correspondence only
     for m in (0, 4):
         for n in (1, 3, 8):
@@ -310,6 +432,26 @@ def coverage_extra(cases, answers):
                 if pos:
                     d = int(math.floor(math.log10(min(pos))))
                     minp[d] = minp.get(d, 0) + 1
-    return {"dimension_histogram": {str(k): dims[k] for k in sorted(dims)}, "method_histogram": meth,
+    # copies: kind -> number of cases; how many go across codings / dimensions / constraint options
+    cp, cross = {}, {"coding": 0, "dimension": 0, "constraint": 0}
+    for c in cases:
+        t = c[0].split()
+        if len(t) > 1 and t[1].startswith("cp-"):
+            cp[t[1][3:]] = cp.get(t[1][3:], 0) + 1
+            d = {w[0]: w[1:] for w in t[2:] if w[1:].isdigit()}
+            if d.get("m") != d.get("t"):
+                cross["coding"] += 1
+            if d.get("n") != d.get("k"):
+                cross["dimension"] += 1
+            if len(d.get("a", "")) == 2 and d["a"][0] != d["a"][1]:
+                cross["constraint"] += 1
+    ops = {}
+    for c in cases:
+        for l in c[1:]:
+            w = l.split()[0]
+            if w in ("copy", "copyctor", "assign", "ocopy", "oclone", "oassign", "slicecopy", "sliceassign", "baseassign"):
+                ops[w] = ops.get(w, 0) + 1
+    return {"copy_cases_by_kind": cp, "copy_cases_across": cross, "copy_ops": ops,
+            "dimension_histogram": {str(k): dims[k] for k in sorted(dims)}, "method_histogram": meth,
             "param_ops_with_coordinate_within_1e-8_of_0_or_1": edge,
             "min_probability_decade_histogram": {str(k): minp[k] for k in sorted(minp)}}
